@@ -420,7 +420,10 @@ func (w *proxyWorld) originHandler(rw http.ResponseWriter, req *http.Request) {
 				if hj, ok := rw.(http.Hijacker); ok {
 					if c, _, err := hj.Hijack(); err == nil {
 						c.Write(e.RespBody)
-						c.Close()
+						if !hostileKeepsOpen[n%len(hostileResponses)] {
+							c.Close()
+						}
+						// (a connection left open is closed with the origin's listener at the end of the run)
 					}
 				}
 				e.Finished = true
